@@ -207,6 +207,12 @@ def handle (s : Sexp) : D String :=
       | .ok (t', st) =>
         let fs := st.futures.map fun (n, a, p, sh) => s!"({Sexp.quote n} {a} {if p then "true" else "false"} {sh})"
         pure s!"ok {showRTerm t'} ({" ".intercalate fs}) {st.maxShift}"
+  | .list [.atom "ranges", t] => do
+      -- time ranges of the atoms of a head formula: (key lo ray) ...
+      match hCreateFormula (← decTTerm t) with
+      | .error e => pure ("ERR " ++ e.tag)
+      | .ok f => pure ("(" ++ " ".intercalate ((rangesH 0 false f).map fun (k, r) =>
+          s!"({Sexp.quote k} {r.lo} {if r.ray then 1 else 0})") ++ ")")
   | .list (.atom "clauses" :: kind :: args) => do
       -- (clauses bool op lit lhs rhs) | (clauses tel dual lit lhs|none rhs pre) | (clauses eq a b)
       let cs ← match kind, args with
